@@ -24,20 +24,20 @@ MODULE = "mc.checks.c01"
 
 def bounds(tier, seed):
     return {"bases": projects.BASE_NAMES, "git": [False, True], "defects": projects.DEFECTS,
-            "max_defects": 2 if tier == "quick" else 4,
-            "seed_slice": f"all 3-defect sets on base {projects.BASE_NAMES[seed % 6]} (no git)" if tier == "quick" else None}
+            "max_defects": 3 if tier == "quick" else 4,
+            "seed_slice": f"all 4-defect sets on base {projects.BASE_NAMES[seed % len(projects.BASES)]} (no git)" if tier == "quick" else None}
 
 
 def cases(tier, seed):
-    n = 2 if tier == "quick" else 4
+    n = 3 if tier == "quick" else 4
     for b in range(len(projects.BASES)):
         for git in (False, True):
             for ds in projects.defect_sets(n):
                 yield {"base": b, "git": git, "defects": ds}
     if tier == "quick":
         b = seed % len(projects.BASES)
-        for ds in projects.defect_sets(3):
-            if len(ds) == 3:
+        for ds in projects.defect_sets(4):
+            if len(ds) == 4:
                 yield {"base": b, "git": False, "defects": ds}
 
 
